@@ -8,7 +8,11 @@ import os
 from pyvc.api import *
 
 SPEC_IMPORTS = ['contracts.common']
-SPEC_FUNCTIONS = ['has_slot', 'is_data_descriptor']
+SPEC_FUNCTIONS = ['has_slot', 'is_data_descriptor', 'annotation_values']
+
+
+def annotation_values(inference_state, ann):
+    return create_from_access_path(inference_state, ann).execute_annotation(None)
 
 
 def has_slot(x, name):
@@ -109,6 +113,15 @@ _class = _c('py__class__', {}, False)
 _bases = _c('py__bases__', {}, False, unroll={0: 2})
 
 FAMILIES = [
+    Family('CVF', attrs={'_inference_state': Obj('IS13'), 'is_instance': BOOL, 'compiled_value': ANY},
+           methods={'_get_cached_name': FnSpec('CVF._get_cached_name', params=[('name', STR), ('is_empty', BOOL),
+                                                                                ('is_descriptor', BOOL)],
+                                               defaults={'is_empty': False, 'is_descriptor': False}, ret=ANY,
+                                               pure=True, assumed=True, note='memoised name construction')}),
+    Family('IS13', attrs={'allow_unsafe_executions': BOOL}),
+    Family('AccessPath13', methods={'execute_annotation': FnSpec(
+        'CompiledValue.execute_annotation', params=[('arguments', Opt(ANY))], ret=Seq(ANY), pure=True, assumed=True,
+        note='the values an annotation object stands for (a value set, here a sequence); empty if unresolvable')}),
     Family('Live', methods={
         'values': FnSpec('dict.values', ret=_L, pure=True, assumed=True, note='only reached for isinstance(obj, dict)'),
     }),
@@ -185,7 +198,60 @@ _static = Contract(
           '_shadowed_dict/_is_type are abstract pure lookups (they use type.__dict__ / object.__getattribute__ only)',
 )
 
-CONTRACTS = [_bool, _has_iter, _getitem, _iter_list, _static]
+_INFO = Tup(BOOL, BOOL, Opt(ANY))
+_allowed_cb = FnSpec('allowed_getattr_callback', params=[('name', STR)], ret=_INFO, pure=True, assumed=False,
+                     note='is_allowed_getattr (static) or the dir_infos entry: abstract')
+_in_dir_cb = FnSpec('in_dir_callback', params=[('name', STR)], ret=BOOL, pure=True, assumed=False)
+
+
+def _replay_get(inp):
+    """the real filter on a live object with a property whose return annotation resolves to nothing"""
+    from pyvc.replay import run_real
+    import jedi
+    calls = []
+
+    class Obj13:
+        @property
+        def prop(self) -> 'list of float':
+            calls.append('getter')
+            return [1.0]
+        plain = 1
+    old = jedi.settings.allow_unsafe_interpreter_executions
+    jedi.settings.allow_unsafe_interpreter_executions = inp['unsafe']
+    try:
+        o = Obj13()
+        out = run_real(lambda: sorted(c.name for c in jedi.Interpreter('o.', [{'o': o}]).complete()))
+    finally:
+        jedi.settings.allow_unsafe_interpreter_executions = old
+    return {'DIR': sorted(n for n in dir(Obj13())), 'GETTER_CALLS': list(calls), 'unsafe': inp['unsafe']}, out
+
+
+_filter_get = Contract(
+    id='C13.CompiledValueFilter._get', prop='C13',
+    clause='names after "obj.": for every name dir() lists, _get (as called by values(): no has-attribute check) '
+           'returns at least one name; in safe mode a descriptor hit whose annotation yields no values becomes the '
+           'empty placeholder name (no getattr), never nothing',
+    file='jedi/inference/compiled/value.py', qualname='CompiledValueFilter._get',
+    params={'self': Obj('CVF'), 'name': STR, 'allowed_getattr_callback': _allowed_cb, 'in_dir_callback': _in_dir_cb,
+            'check_has_attribute': BOOL},
+    families=['CVF', 'IS13', 'AccessPath13'], ret=Seq(ANY),
+    ensures=[
+        'implies(not check_has_attribute and in_dir_callback(name), len(result) >= 1)',
+        'implies(not self._inference_state.allow_unsafe_executions '
+        'and (allowed_getattr_callback(name)[1] or not allowed_getattr_callback(name)[0]) '
+        'and (allowed_getattr_callback(name)[2] is None or len(annotation_values(self._inference_state, '
+        'allowed_getattr_callback(name)[2])) == 0) '
+        'and (allowed_getattr_callback(name)[0] or not check_has_attribute), '
+        'result == [self._get_cached_name(name, is_empty=True)])',
+        'implies(check_has_attribute and not allowed_getattr_callback(name)[0] '
+        'and (allowed_getattr_callback(name)[2] is None or len(annotation_values(self._inference_state, '
+        'allowed_getattr_callback(name)[2])) == 0), result == [])',
+    ],
+    witness={}, replay=_replay_get, concrete_only=True, witness_library=[{'unsafe': False}, {'unsafe': True}],
+    concrete_ensures=['all(n in result for n in DIR)', 'implies(not unsafe, GETTER_CALLS == [])'],
+)
+
+CONTRACTS = [_bool, _has_iter, _getitem, _iter_list, _static, _filter_get]
 
 
 def register(reg):
@@ -198,6 +264,11 @@ def register(reg):
         reg.names[nm] = FnSpec(nm, params=params, ret=ret, pure=True, assumed=True,
                                note='static lookup helper of getattr_static.py (type.__dict__ / '
                                     'object.__getattribute__ only; runs no user code)')
+    reg.names['create_from_access_path'] = FnSpec(
+        'create_from_access_path', params=[('inference_state', Obj('IS13')), ('access_path', ANY)],
+        ret=Obj('AccessPath13'), pure=True, assumed=True, note='wraps the annotation object; no operation on it')
+    reg.names['CompiledValueName'] = FnSpec('CompiledValueName', params=[('value', ANY), ('name', STR)], ret=ANY,
+                                            pure=True, assumed=True)
     reg.names['_sentinel'] = SV(_L, _z3.Const('getattr_static._sentinel', _Ref))
     reg.names['types'] = MNS('types', {
         'MemberDescriptorType': SV(_L, _z3.Const('types.MemberDescriptorType', _Ref)),
